@@ -61,6 +61,7 @@ struct Ledger {
 struct State {
   GC* gc = nullptr;
   size_t cap = 1;
+  size_t ticket_base = 0;  // queue index the run started from (history prefix)
   int style = 0;  // 0 thread-local lock()/unlock(), 1 one Accessor per reader thread
   Region regions[MAXREG];
   int nregions = 0;
@@ -222,6 +223,8 @@ void gen(Rng& r, Plan& p, const GenParams& gp) {
   gen_common(r, p, SB_HALF, false, 1500);
   static const int caps[] = {1, 1, 2, 2, 3, 4};
   p.cfg["cap"] = caps[r.below(6)];
+  static const int64_t ep[] = {0, 0, 0, 0, 3, 32766, 32767, 65534, 65535};
+  p.cfg["epoch0"] = ep[r.below(9)];
   p.cfg["style"] = (int64_t)r.below(2);
   int stop_mode = gp.mode == 1 ? 1 : gp.mode == 0 ? 0 : (r.chance(1, 3) ? 1 : 0);
   p.cfg["stop_mode"] = stop_mode;
@@ -266,6 +269,21 @@ void run(const Plan& p) {
   s.gc = new GC();
   int64_t cap = p.get("cap", 1);
   s.gc->set_queue_capacity((size_t)(cap < 1 ? 1 : cap > 8 ? 8 : cap));
+  // history prefix: pretend the task queue's ring has already been cycled epoch0
+  // times (16-bit slot versions near their wrap); set-up only, before start()
+  {
+    uint64_t e0 = (uint64_t)std::max<int64_t>(0, p.get("epoch0", 0));
+    auto& q = s.gc->_queue;
+    size_t qc = q.capacity();
+    if (e0) {
+      s.ticket_base = e0 * qc;
+      q._next_push_index.store(e0 * qc, std::memory_order_relaxed);
+      q._next_pop_index.store(e0 * qc, std::memory_order_relaxed);
+      for (size_t i = 0; i < qc; i++) q._slots.futex(i).set_version((uint16_t)(e0 << 1), std::memory_order_relaxed);
+      sim::drain();
+      probe("history_prefix");
+    }
+  }
   s.cap = s.gc->_queue.capacity();
   s.gc->start();
   int64_t pre = p.get("pre_us", 0);
@@ -297,7 +315,7 @@ void run(const Plan& p) {
   } else {
     // every retire() has drawn its queue ticket (it may still be blocked on a full queue)
     // (or has returned: a retire() that came back without a ticket must surface as `lost`, not as a hang here)
-    while (s.gc->_queue._next_push_index.load(std::memory_order_relaxed) < total && (size_t)s.nreturned < total) ::usleep(300);
+    while (s.gc->_queue._next_push_index.load(std::memory_order_relaxed) < s.ticket_base + total && (size_t)s.nreturned < total) ::usleep(300);
   }
   if (stop_mode == 1) {
     for (auto& th : readers) th.join();
